@@ -6,14 +6,14 @@ ID=$1; K=$2; shift 2
 SRC=/tmp/wt/$ID-out/$K
 OUT=/verif/seeded/$ID-${ROUND:+$ROUND-}$K
 mkdir -p $OUT
-WT=/tmp/val; [ -d $WT ] || git -C /repo worktree add -q --detach $WT HEAD; cd $WT && git checkout -q --detach $(git -C /repo rev-parse HEAD) && git checkout -q -- . 
+WT=${WT:-/tmp/val}; [ -d $WT ] || git -C /repo worktree add -q --detach $WT HEAD; cd $WT && git checkout -q --detach $(git -C /repo rev-parse HEAD) && git checkout -q -- . 
 if [ -n "$(git status --short)" ]; then echo "REPO DIRTY - abort"; exit 2; fi
 if git apply --check $SRC/patch.diff 2>/dev/null; then git apply $SRC/patch.diff; APPLY=clean
 elif git apply --3way $SRC/patch.diff 2>/dev/null; then git reset -q; APPLY=3way
 else echo "PATCH DOES NOT APPLY"; git -C $WT reset -q --hard HEAD; echo '{"applies": false}' > $OUT/meta.json; exit 3; fi
 git diff > $OUT/patch.diff
 SUITE=$(SUITE_DIR=$WT /venv/bin/python /verif/tools/suite.py 2>&1 | head -1)
-DEMO_WITH=$(cd $SRC && PYTHONPATH=$WT/src timeout 300 /venv/bin/python demo.py > /tmp/demo_with.log 2>&1; echo $?)
+DEMO_WITH=$(cd $SRC && PYTHONPATH=$WT/src timeout 300 /venv/bin/python demo.py > /tmp/demo_with.$$.log 2>&1; echo $?)
 cd /verif
 RESULTS=""
 for C in $ID "$@"; do
@@ -22,7 +22,7 @@ for C in $ID "$@"; do
   RESULTS="$RESULTS$C: $R ;; "
 done
 cd $WT && git checkout -- . && git status --short
-DEMO_WITHOUT=$(cd $SRC && PYTHONPATH=$WT/src timeout 300 /venv/bin/python demo.py > /tmp/demo_without.log 2>&1; echo $?)
+DEMO_WITHOUT=$(cd $SRC && PYTHONPATH=$WT/src timeout 300 /venv/bin/python demo.py > /tmp/demo_without.$$.log 2>&1; echo $?)
 cp $SRC/demo.py $OUT/demo.py; cp $SRC/notes.md $OUT/notes.md 2>/dev/null
 python3 - "$ID" "$K" "$APPLY" "$SUITE" "$DEMO_WITH" "$DEMO_WITHOUT" "$RESULTS" > $OUT/meta.json <<'PY'
 import json,sys
